@@ -108,7 +108,9 @@ G["Stack"] = G["IrregularlyBin"]
 
 
 def is_num(v):
-    return (isinstance(v, (int, float)) and not isinstance(v, bool)) or v in SPECIALS
+    # booleans count as numbers: Python's bool is a numbers.Real and the library's documented contract for quantities is
+    # "boolean or number" (a Maximize filled with True serialises max as true); C15 never *uses* a bool as a replacement
+    return isinstance(v, (int, float)) or (isinstance(v, str) and v in SPECIALS)
 
 
 def num(v):
